@@ -23,6 +23,7 @@ func init() {
 		"errors.New":    extNonNilErr,
 		"strconv.Itoa":  func(f *frame, cm *ssa.CallCommon, a []Val, st *State, n string, rt types.Type, p token.Pos) Val { return Val{T: f.c.define(n, SStr, "(itoa "+a[0].T+")"), Typ: rt} },
 		"strconv.Atoi":  extAtoi,
+		"strconv.ParseFloat": extParseFloat,
 		"fmt.Sscanf":    extSscanf,
 		"encoding/xml.Unmarshal": extUnmarshal,
 		"(*encoding/xml.Decoder).Token": extToken,
@@ -226,6 +227,11 @@ func extSprintf(f *frame, cm *ssa.CallCommon, args []Val, st *State, name string
 	elems := f.varargElems(cm.Args[1], st)
 	if elems == nil {
 		return f.freshResult(resT, st, name)
+	}
+	if format == "%.0f" && len(elems) == 1 {
+		// "%.0f" prints the nearest integer (ties: the exact rule is not modelled): itoa(rnd(x)) with |rnd(x) - x| <= 1/2
+		c.assumed["fmt.Sprintf(\"%.0f\", x) = itoa(rnd(x)) with |rnd(x) - x| <= 1/2 and rnd(n) = n for integers (axioms; tie-breaking and float64 rounding not modelled; NaN/Inf not modelled)"] = true
+		return Val{T: c.define(name, SStr, fmt.Sprintf("(itoa (rnd (ireal %s)))", elems[0])), Typ: resT}
 	}
 	if format == "%d" && len(elems) == 1 {
 		c.assumed["fmt.Sprintf(\"%d\", n) = itoa(n) with atoi(itoa(n)) = n (axiom)"] = true
@@ -489,5 +495,17 @@ func extZipNewReader(f *frame, cm *ssa.CallCommon, args []Val, st *State, name s
 	files := fmt.Sprintf("(select %s %s)", st.Heap(fh), rd.T)
 	c.assume(st, fmt.Sprintf("(=> (= (itag %s) 0) (forall ((i Int)) (! (=> (and (<= 0 i) (< i (slen %s))) (not (= (select %s (selem %s i)) nil))) :pattern ((selem %s i)))))", err.T, files, st.Heap(ch), files, files))
 	c.assumed["archive/zip.NewReader: on success every element of Reader.File is non-nil"] = true
+	return r
+}
+
+
+// extParseFloat: strconv.ParseFloat(s, 64) on a decimal integer string (what "%.0f"/Itoa produce) returns
+// that integer; on any other string the result is unconstrained (value and error).
+func extParseFloat(f *frame, cm *ssa.CallCommon, args []Val, st *State, name string, resT types.Type, pos token.Pos) Val {
+	c := f.c
+	r := f.freshResult(resT, st, name)
+	v, err := r.Tuple[0], r.Tuple[1]
+	c.assume(st, fmt.Sprintf("(=> (atoi_ok %s) (and (= (itag %s) 0) (= %s (to_real (atoi %s)))))", args[0].T, err.T, v.T, args[0].T))
+	c.assumed["strconv.ParseFloat(s, 64) = atoi(s) for decimal integer strings (atoi_ok), with atoi(itoa(n)) = n; other strings unconstrained"] = true
 	return r
 }
